@@ -151,6 +151,10 @@ impl OutputFormat for IceDraw {
         if x2 < x1 {
             return Err(anyhow::anyhow!("invalid bounds for idf width needs to be >=0."));
         }
+        // same sanity limit as the XBin loader: every row is allocated at the full width
+        if x2 - x1 + 1 > 4096 {
+            return Err(anyhow::anyhow!("Invalid IDF. Width out of range: {} (1-4096).", x2 - x1 + 1));
+        }
 
         // the width in the IDF header is authoritative (a SAUCE record of the BIN type can only carry even widths)
         result.set_width(x2 - x1 + 1);
